@@ -457,20 +457,21 @@ def _campaign(ctx, entries, configs, trace_cfg, tag, again, window_ms, jobs, kno
         big = max(range(len(distinct)), key=lambda i: len(distinct[i]))
         ctx.sample({"program": metas[big]["program"], "tags": metas[big]["tags"], "config": metas[big]["config"],
                     "events": distinct[big][1:12], "nevents": len(distinct[big])})
+    isdesc = {e["prog"]["name"]: e["desc"] for e in entries}
     fails = ctx.validate("PTG", "ExecTrace", trace_cfg, distinct, batch=400, timeout=1500)
     ctx.traces = ctx.extra["executions_run"]
     for f in fails:
         meta = metas[f.index]
         ctx.violation("%s of generated PTG program %s %s under %s is rejected by ExecTrace (%s): %s" % (
             what, meta["program"], meta["tags"], meta["config"], trace_cfg, json.dumps(f.describe())[:900]),
-            {"meta": meta, "events": f.execution, "detail": f.describe(), "trace_cfg": trace_cfg})
+            {"meta": meta, "events": f.execution, "detail": f.describe(), "trace_cfg": trace_cfg},
+            key=(known_key if isdesc.get(meta["program"], False) else None))   # class of the finding: a negative step
     if not fails and distinct:          # every distinct execution was accepted: corrupt one of them
         cands = [ex for ex in distinct if 8 <= len(ex) <= 60 and any(ev.get("e") == "End" and any(ev.get("w") or [])
                                                                       for ev in ex)] or distinct
         fn, txt = corrupt_exec(trace_cfg)
         corruption_selftest(ctx, "PTG", "ExecTrace", trace_cfg, cands[0], fn, txt)
     # hangs: the Timeout event is never enabled; validate (at most two, the others are the same observation)
-    isdesc = {e["prog"]["name"]: e["desc"] for e in entries}
     names = sorted(hung, key=lambda n: (isdesc.get(hung[n][0]["program"], False), n))    # other classes first
     ctx.extra.setdefault("hangs", []).extend(
         {"program": hung[n][0]["program"], "tags": hung[n][0]["tags"], "config": hung[n][0]["config"]} for n in names)
